@@ -26,7 +26,7 @@ CONFIRM_CPU = 20
 PROFILE_DIR = os.path.join(core.ROOT, 'profiles')
 # corpus files whose truncations / mutants hang (known findings C06-K2...): kept as regress replays, left out of the random pools so that
 # the search is not spent on 20-second runs of known hangs
-HANG_FILES = {'oc/properties.m', 'pawn/preproc.pawn'}
+HANG_FILES = {'oc/properties.m'}
 
 
 def frame(err):
@@ -186,6 +186,13 @@ def main(ctx):
         if r.random() < 0.15:
             lang = r.choice(LANGS)
         cases.append(mk(src, lang, r, {'kind': 'mutant', 'file': rel, 'mut': names, 'i': i}))
+    # (b2) end of file inside every kind of construct: every tail x every language, appended to a small valid prefix, without -q
+    prefix = {'C': b'int g(int);\n', 'CPP': b'int g(int);\n', 'D': b'int g(int);\n', 'CS': b'class A { }\n', 'JAVA': b'class A { }\n', 'OC': b'int g(int);\n',
+              'VALA': b'class A { }\n', 'PAWN': b'new x = 1;\n', 'ECMA': b'var x = 1;\n'}
+    for lang in LANGS:
+        for ti, tail in enumerate(mutate.TAILS):
+            for pre in (b'', prefix[lang]):
+                cases.append(family.Case(pre + tail, lang, {}, {'kind': 'eof-in-construct', 'tail': ti, 'cfgkind': 'default'}, {'quiet': False, 'profile': None}))
     # (c) random bytes
     for i in range(300 if quick else 8000):
         r = random.Random(core.subseed(ctx.useed, 'rnd', i))
